@@ -1,21 +1,31 @@
 // Kani bounded stand-in for vba::VbaProject::from_cfb (C18) -- the function Verus cannot take (closures capturing `&mut cfb`,
-// `collect::<Result<BTreeMap,_>>`).  One project image is BUILT here from the file-format definitions
+// `collect::<Result<BTreeMap,_>>`).  Project images are BUILT here from the file-format definitions
 //   [MS-OVBA] 2.3.4.2 dir stream (PROJECTINFORMATION, PROJECTREFERENCES (empty), PROJECTMODULES), 2.4.1 compression container,
-//   [MS-CFB] sectors chained by the FAT (dir stream) / 64-byte mini sectors chained by the mini FAT (module streams),
+//   [MS-CFB] sectors chained by the FAT / 64-byte mini sectors chained by the mini FAT,
 // handed to the REAL `from_cfb`, and the result is compared with what the format says:
 //   module MODULENAME(0x19) |-> decompress( stream named by MODULESTREAMNAME(0x1A) [ MODULEOFFSET(0x31).TextOffset .. ] ).
 // Module names and stream names are CROSSED on purpose (module "A" lives in stream "SB", module "B" in stream "SA"), decoy streams
 // named "A"/"B" can be present, and the two text offsets differ (0 and 3).  The module source bytes are symbolic.
 //
-// How the image is made cheap for CBMC:
-//  * the `dir` stream (299 bytes of records) is stored as ONE RAW chunk (CompressedChunkFlag = 0, 4096 data bytes, [MS-OVBA]
-//    2.4.1.1.5/2.4.1.1.6): decompress_stream copies it without a token loop.  (A literal-token container of the same stream has
-//    ~300 tokens; CBMC's symbolic execution cannot resolve the flag bytes read back from the heap and unrolls the copy-token
-//    loop at every token position: measured > 15 min without a result.)  Its container is 4099 bytes >= 4096, so it lives in
-//    regular sectors (sector size 4096 = CFB v4, 2 sectors chained by the FAT).
-//  * that whole part is computed by `const fn`s at compile time (no loop unrolling of the builder under CBMC);
-//  * the two module streams are compressed containers (literal tokens and one copy token) encoded at run time from symbolic
-//    bytes by the encoder copied from kani/vbadec.rs (written from the writer side of [MS-OVBA] 2.4.1.3.7 / 2.4.1.3.19.3).
+// STATUS (measured, Kani 0.68 / CBMC 6.11, this sandbox): NONE of the harnesses below terminates within 10..40 minutes; they are
+// therefore NOT registered in kani/vbaproj.json ("harnesses": []; the list with the measurements is under "unfinished").
+// The image builders are also used by kani/vbaprojv.rs (same outcome) and were validated natively (cargo test: the real from_cfb
+// returns exactly the expected modules on image_real; both mutants  get_stream(&m.name)  and  &s[..]  are rejected).
+// What blocks CBMC, in the order met:
+//  1. a literal-token container of the 299-byte dir stream: the FlagBytes read back from the heap are not constants for the symbolic
+//     execution, the CopyToken branch (4096-byte `buf`, copy loop) is unrolled at each of ~300 token positions        (> 17 min);
+//  2. dir stream as ONE RAW chunk (CompressedChunkFlag 0, 4096 bytes; image_real): the chunk flag is not a constant either, the
+//     compressed branch is still explored for the dir stream; ~50 s of symbolic execution per `'chunk` iteration   (> 10 min, unwind 4);
+//  3. `--max-field-sensitivity-array-size 1024` (cbmc_args) restores constant propagation through Vec<Directory>, the mini stream and
+//     get_chain (memcmp of a String stored in a heap array of 40-byte structs otherwise has a non-constant length!), but it is lost
+//     again behind read_dir_information (chained `*stream = &stream[n..]` + read_exact): every record alternative of
+//     Reference::from_stream (set_libid / rsplit / PathBuf) and read_modules is unrolled  (from_cfb_wiring: > 40 min; _big: > 30 min);
+//  4. with the three dir-stream parsers, decompress_stream and even Cfb::get_stream replaced by models (kani/vbaprojv.rs) the
+//     in-place `collect::<Result<BTreeMap<..>>>` makes the number of collected pairs non-constant and the whole std stable sort
+//     (driftsort / quicksort::stable_partition) inside BTreeMap::from_iter is unrolled                                 (> 10 min).
+//
+// The compression encoder (Tok .. encode_compressed_chunk) is a copy of the one in kani/vbadec.rs (written from the writer side of
+// [MS-OVBA] 2.4.1.3.7 / 2.4.1.3.19.3).  The constant parts of the images are computed by `const fn`s at compile time.
 
 #[derive(Clone, Copy)]
 enum Tok {
@@ -493,14 +503,6 @@ pub fn from_cfb_wiring() {
 }
 
 #[kani::proof]
-#[kani::unwind(9)]
-#[kani::stub(encoding_rs::Encoding::decode, decode_ascii_1252_stub)]
-#[kani::stub(decompress_stream, decompress_model)]
-pub fn from_cfb_wiring_decoys() {
-    wiring_case(true);
-}
-
-#[kani::proof]
 #[kani::unwind(4)]
 #[kani::stub(encoding_rs::Encoding::decode, decode_ascii_1252_stub)]
 #[kani::stub(codepage::to_encoding, to_encoding_1252_stub)]
@@ -542,86 +544,4 @@ pub fn from_cfb_two_modules_concrete() {
     let ta = [Tok::Lit(b'a'), Tok::Lit(b'b')];
     let tb = [Tok::Lit(b'd'), Tok::Copy(1, 3)];
     check_project(image_real(&ta, &tb, false), b"ab", b"dddd");
-}
-
-pub(crate) fn spin(k: u8) { let mut n = 0u8; while n < k { n += 1; } assert!(n == k); }
-#[kani::proof]
-pub fn probe_find() {
-    let cfb = image_model(&[1,2,3], &[4,5], &[6,7,8], false);
-    let d = cfb.directories.iter().find(|d| &*d.name == "dir").unwrap();
-    spin(d.start as u8);
-}
-#[kani::proof]
-pub fn probe_minifat() {
-    let cfb = image_model(&[1,2,3], &[4,5], &[6,7,8], false);
-    spin(cfb.mini_fats[1] as u8);
-    spin(cfb.mini_sectors.data[65]);
-}
-#[kani::proof]
-pub fn probe_get() {
-    let mut cfb = image_model(&[1,2,3], &[4,5], &[6,7,8], false);
-    let mut r: &[u8] = &[];
-    let s = cfb.mini_sectors.get(1, &mut r).unwrap();
-    spin(s[1]);
-}
-#[kani::proof]
-pub fn probe_get_stream() {
-    let mut cfb = image_model(&[1,2,3], &[4,5], &[6,7,8], false);
-    let mut r: &[u8] = &[];
-    let s = cfb.get_stream("dir", &mut r).unwrap();
-    spin(s[1]);
-}
-#[kani::proof]
-pub fn probe_d1() {
-    let cfb = image_model(&[1,2,3], &[4,5], &[6,7,8], false);
-    spin(cfb.directories[2].start as u8);
-}
-#[kani::proof]
-pub fn probe_d2() {
-    let cfb = image_model(&[1,2,3], &[4,5], &[6,7,8], false);
-    spin(cfb.directories[2].name.len() as u8);
-}
-#[kani::proof]
-pub fn probe_d3() {
-    let cfb = image_model(&[1,2,3], &[4,5], &[6,7,8], false);
-    spin(cfb.directories[2].name.as_bytes()[0] - 90);
-}
-#[kani::proof]
-pub fn probe_d4() {
-    let cfb = image_model(&[1,2,3], &[4,5], &[6,7,8], false);
-    spin((&*cfb.directories[2].name == "dir") as u8);
-}
-#[kani::proof]
-pub fn probe_d5() {
-    let a = String::from("dir");
-    spin((&*a == "dir") as u8);
-}
-
-#[kani::proof]
-pub fn probe_dir_tail() {
-    let mut cfb = image_model(&[1,2,3], &[4,5], &[6,7,8], false);
-    let mut r: &[u8] = &[];
-    let s = cfb.get_stream("dir", &mut r).unwrap();
-    spin(s[1]);
-    spin(s[114]);
-    spin((s.len() - 290) as u8);
-    let d = decompress_model(&s).unwrap();
-    spin(d[113]);
-    let st = &mut &*d;
-    *st = &st[113..];
-    use byteorder::{LittleEndian, ReadBytesExt};
-    let x = st.read_u16::<LittleEndian>().unwrap();
-    spin(x as u8);
-}
-
-#[kani::proof]
-pub fn probe_dir_tail_sym() {
-    let x: [u8; 3] = kani::any();
-    let y: [u8; 2] = kani::any();
-    let junk: [u8; 3] = kani::any();
-    let mut cfb = image_model(&x, &y, &junk, false);
-    let mut r: &[u8] = &[];
-    let s = cfb.get_stream("dir", &mut r).unwrap();
-    spin(s[1]);
-    spin(s[114]);
 }
